@@ -235,6 +235,23 @@ def run_valid(c):
         if now != state0:
             raise Violation("after floorplanning_rectangles() the die reports other regions: %s were %s" % (
                 {k: len(v) for k, v in now.items()}, {k: len(v) for k, v in state0.items()}), "getter-alters-the-die")
+    # the die is what was built: changing the netlist afterwards (a movable module gets fixed, a fixed one is released) does not
+    # change what the existing die reports
+    if keep.get("netlist") is not None:
+        nl0 = keep["netlist"]
+        flipped = []
+        for m in nl0.modules:
+            if m.is_hard and not m.is_terminal and m.num_rectangles > 0:
+                m.is_fixed = not m.is_fixed
+                flipped.append(m)
+        if flipped:
+            now = {name: sorted(key(r) for r in getattr(die, name)) for name in state0}
+            for m in flipped:
+                m.is_fixed = not m.is_fixed
+            if now != state0:
+                raise Violation("after fixing / releasing modules of the netlist the existing die reports other regions: %s were %s" % (
+                    {k: len(v) for k, v in now.items()}, {k: len(v) for k, v in state0.items()}), "die-follows-later-netlist-changes")
+            cls.append("netlist-changed-after-the-die-was-built")
     if c["form"] == "tree":
         # the description is the caller's object: it is still the same description afterwards and is accepted again
         if keep["src"] != D.die_tree(c):
@@ -298,7 +315,7 @@ def subchecks():
         Sub("valid", run_valid, strategy=die_in(False), n_quick=12000, n_thorough=300000, fuzz_thorough=6000,
             required=("tree", "flow", "block", "file", "wxh", "touches-border", "regions-touch", "with-fixed",
                       "float-rounding", "decimal-unit", "single-region-without-list", "netlist-with-soft-modules",
-                      "tiny-module-in-netlist", "large-die", "description-used-twice", "netlist-with-movable-hard-modules")),
+                      "tiny-module-in-netlist", "large-die", "description-used-twice", "netlist-with-movable-hard-modules", "netlist-changed-after-the-die-was-built")),
         Sub("invalid", run_invalid, strategy=die_in(True), n_quick=6000, n_thorough=120000, fuzz_thorough=3000,
             required=("mut-overlap", "mut-outside", "mut-thin-overlap")),
     ]
